@@ -142,6 +142,7 @@ fn rnd_iter(kind: Kind, rng: &mut Rng, list_len_hint: usize) -> Op {
         pat: rng.next() as u32 & ((1u32 << steps.min(31)) - 1).max(0),
         write: rng.chance(1, 3),
         clone_at: if rng.chance(1, 3) { rng.range(0, steps as u64) as u8 } else { 255 },
+        fin: if rng.chance(1, 2) { 0 } else { rng.range(1, 5) as u8 },
     })
 }
 
